@@ -19,6 +19,9 @@ import zlib
 
 VERIF = os.path.dirname(os.path.dirname(os.path.abspath(__file__)))
 NPROC = int(os.environ.get("VF_NPROC", "16"))
+# redirected only by tools/seed_run.py (sensitivity runs against scratch worktrees)
+OUT_ROOT = os.environ.get("VF_OUT_DIR", os.path.join(VERIF, "out"))
+EVID_ROOT = os.environ.get("VF_EVIDENCE_DIR", os.path.join(VERIF, "evidence"))
 
 
 # ------------------------------------------------------------------ results
@@ -506,7 +509,11 @@ def run_check(prop_id, tier, seed, replay=None):
             new_by_bucket[bucket] = (detail, case, origin)
 
     exit_code = 0
-    outdir = os.path.join(VERIF, "out", prop.ID)
+    outdir = os.path.join(OUT_ROOT, prop.ID)
+    if os.path.isdir(outdir):
+        for fn in os.listdir(outdir):
+            if fn.startswith("violation-"):
+                os.remove(os.path.join(outdir, fn))
     violation_lines = []
     if new_by_bucket:
         os.makedirs(outdir, exist_ok=True)
@@ -596,8 +603,8 @@ def run_check(prop_id, tier, seed, replay=None):
         "wall_s": round(wall, 2),
         "violations": len(new_by_bucket),
     }
-    os.makedirs(os.path.join(VERIF, "evidence"), exist_ok=True)
-    with open(os.path.join(VERIF, "evidence", f"{prop.ID}.json"), "w") as f:
+    os.makedirs(EVID_ROOT, exist_ok=True)
+    with open(os.path.join(EVID_ROOT, f"{prop.ID}.json"), "w") as f:
         json.dump(ev, f, indent=1, default=str)
 
     for line in violation_lines:
